@@ -160,6 +160,7 @@ func runProp(id, tier string) int {
 	if tier == "thorough" && os.Getenv("VERIF_NO_MUTANTS") == "" {
 		if os.Getenv("VERIF_ONLY_BENIGN") == "" {
 			runMutants(c)
+			runSeeds(c)
 		}
 		runBenign(c)
 	}
